@@ -168,6 +168,11 @@ func (k *skel) stmt(st ast.Stmt) []string {
 				shapeErr(k.gen, "lock or channel statement inside a for loop: %s", b)
 			}
 		}
+		// a counted loop (init; cond; post) ends by itself; a loop on a bare condition, or on none,
+		// ends when something outside it says so
+		if x.Init == nil || x.Post == nil || x.Cond == nil {
+			return []string{".wait"}
+		}
 		return []string{".other"}
 	case *ast.IfStmt:
 		var out []string
